@@ -593,7 +593,7 @@ class RaceHarness(Harness):
                     inst = c.inst
                     owes = inst.client_allocations is not None
                     state["kill_done"] = system.clock.now
-                    state["kill_worker"] = getattr(inst, "worker_id", None)
+                    state["kill_worker"] = c.name
                     system.kill(c)
 
                 state["armed"] = lambda now: system.call_at(now + fault["at"], kill)
@@ -1164,9 +1164,10 @@ def analyse(cfg, schedule, out, rc_events, rc_docs):
             jp_sent.setdefault(h[3], []).append(h[1])
     n_joinpoints = len(schedule) + 1
 
-    def all_joinpoints_sent_before(worker_id, t):
-        # worker cells are named Worker#<aid>; map by order of creation is not reliable -> conservative: false unless every worker sent all
-        return all(len(v) >= n_joinpoints and max(v) <= t for v in jp_sent.values()) and bool(jp_sent)
+    def all_joinpoints_sent_before(worker_name, t):
+        """had this worker already announced its last join point (its part of the race was over) at time t?"""
+        v = jp_sent.get(worker_name, [])
+        return len(v) >= n_joinpoints and max(v) <= t
 
     return {
         "element_spans": {k: v for k, v in spans.items() if k >= 0},
